@@ -164,11 +164,16 @@ impl Tape {
         match &mut self.replay {
             Some(stack) => {
                 let (nodes, pos) = stack.last_mut().unwrap();
-                // the next recorded value of this level; a group standing here belongs to something that is no
-                // longer generated and is left for a later begin_group
-                match nodes.get(*pos) {
+                // the next recorded value of this level; groups standing in front of it belong to things that are no
+                // longer generated (a loop that now runs fewer times) and are skipped, so that the values behind them
+                // keep their meaning
+                let mut p = *pos;
+                while let Some(TNode::G(_)) = nodes.get(p) {
+                    p += 1;
+                }
+                match nodes.get(p) {
                     Some(TNode::V(v)) => {
-                        *pos += 1;
+                        *pos = p + 1;
                         *v
                     }
                     _ => 0,
